@@ -117,6 +117,13 @@ def gen_vectors(ctx, dbname, n):
                 d[k] = rng.randint(1, 4)
             if rng.random() < 0.5:
                 d["Q"] = rng.randint(-3, 3)
+        if rng.random() < 0.12 and d:
+            # an element that is in SURPLUS (negative count): the rule-based stage hands such vectors to the solver for
+            # two-sided imbalances after its water bookkeeping; nothing may be proposed that does not add up to the vector
+            k = rng.choice([x for x in d if x != "Q"] or list(d))
+            d[k] = -rng.randint(1, 2)
+            if rng.random() < 0.5:
+                d["H"] = d.get("H", 0) + rng.randint(1, 4)
         items = list(d.items())
         rng.shuffle(items)
         out.append({k: v for k, v in items if v != 0 or k == "Q"})
